@@ -420,6 +420,29 @@ func R6(pkgs ...string) func(p *core.Prog) *core.Result {
 			}
 			if es.typ == "ExpectObjVisitor" {
 				checkGuard(p, r, named)
+				// REARM: the adapter is re-armed for the next value with SetActive; a value can be abandoned half way
+				// (its folder failed), so re-arming resets every nesting counter the events move
+				if sa := p.LookupFunc(es.pkg, "(*"+es.typ+").SetActive"); sa == nil {
+					r.Undecided(".REARM", es.pkg+"."+es.typ+".SetActive", "re-arm method not found")
+				} else {
+					for _, c := range cn {
+						reset := false
+						for _, b := range sa.Blocks {
+							for _, in := range b.Instrs {
+								if st, ok := in.(*ssa.Store); ok && fieldOfReceiver(sa, st.Addr) == c {
+									if _, isC := st.Val.(*ssa.Const); isC {
+										reset = true
+									}
+								}
+							}
+						}
+						if reset {
+							r.Ok(".REARM", p.Pos(sa.Pos()), core.FuncKey(sa)+" resets "+c)
+						} else {
+							r.Fail(".REARM", core.FuncKey(sa)+"|"+c, p.Pos(sa.Pos()), core.FuncKey(sa)+" re-arms the adapter without resetting "+c+": after a value that failed half way the counter is stale, and the next inlined value's events are checked against the wrong depth", "")
+						}
+					}
+				}
 			} else {
 				lenTerminator(p, r, es, named)
 			}
